@@ -60,6 +60,7 @@ class Prop(object):
             u.append(('foreign-framing', {'recip': k}))
         if tier == 'thorough':
             u.append(('bodies', {'comp': 'ZIP', 'fmt': 'b', 'seed': seed, 'big': 4 << 20}))
+        u.append(('kdf', {}))
         u.append(('gpg', {}))
         return u
 
@@ -386,6 +387,45 @@ class Prop(object):
             if oc != 'ok':
                 r.viol('foreign', dict(tags, stage='pgpy-decrypt-foreign', kind=oc, variant='+'.join(sorted(variant)) or 'plain'), case,
                        '%s (recipient %s): %s' % (label, rc, '; '.join(probs)))
+
+    def c_kdf(self, case):
+        """ECDH recipients whose key carries KDF parameters (RFC 6637 section 9) other than the per-curve defaults, both directions."""
+        import pgpy
+        from pgpy.constants import KeyFlags, CompressionAlgorithm, SymmetricKeyAlgorithm
+        r = Res()
+        only = case.get('only')
+        body = b'key derivation parameters travel with the key'
+        for name in ('cv25519a', 'ecdh_p256a', 'ecdh_p384a', 'ecdh_p521a'):
+            for kdf in ((8, 7), (8, 9), (9, 8), (10, 7), (10, 9)):
+                kid = '%s/%d/%d' % (name, kdf[0], kdf[1])
+                if only and kid != only:
+                    continue
+                r.states += 2
+                raw = dict(K.raw(name, K.T0), kdf=kdf)
+                label = 'ECDH recipient %s with KDF hash %d / wrap cipher %d' % (name, kdf[0], kdf[1])
+                prim, _praw = K.pgpy_cert('ed25519a', uid='Kdf <kdf@example.org>')
+                prim.add_subkey(K.pgpy_secret(raw), usage={KeyFlags.EncryptCommunications}, created=K.dt(K.T0 + 5))
+                for direction in ('pgpy->ref', 'ref->pgpy'):
+                    r.transitions += 1
+                    try:
+                        if direction == 'pgpy->ref':
+                            m = pgpy.PGPMessage.new(body, compression=CompressionAlgorithm.Uncompressed, format='b')
+                            e = prim.pubkey.encrypt(m, cipher=SymmetricKeyAlgorithm.AES256)
+                            pt, info = rmsg.decrypt(bytes(e), [raw], ())
+                            ok = lit_view(pt)[0]['data'] == body
+                        else:
+                            sk = bytes(range(7, 39))
+                            lit = wire.packet(11, rmsg.literal_body('b', b'', 0, body))
+                            blob = wire.packet(1, renc.pkesk_body(raw, 9, sk)) + wire.packet(18, renc.seipd_encrypt(9, sk, lit))
+                            ok = bytes(prim.decrypt(pgpy.PGPMessage.from_blob(blob)).message) == body
+                        why = 'plaintext differs'
+                    except Exception as e:
+                        ok, why = False, repr(e)
+                    r.outcomes['kdf:' + ('ok' if ok else 'violation')] += 1
+                    if not ok:
+                        r.viol('kdf', {'direction': direction, 'curve': raw['curve']}, dict(case, only=kid), '%s, %s: %s' % (label, direction, why))
+        r.samples.append({'kdf': 'hash {8,9,10} x cipher {7,8,9} on 4 curves'})
+        return r
 
     def c_gpg(self, case):
         """Messages encrypted by GnuPG 2.2.40 (every cipher, RSA / Curve25519 / P-256 recipients, passphrases with every S2K mode and hash,
